@@ -196,6 +196,11 @@ def gen_ff(g, nblocks=None, uniform_nrexcl=True, itp_p=0.2, multires_p=0.15, rem
                 links.append({"resnames": [X["name"]], "sections": {
                     "angles": [{"atoms": [cap, first, last], "params": ["1", "105", "25"], "meta": {}}],
                     "bonds": [{"atoms": [first, last], "params": ["6", "0.52", "150"], "meta": {}}]}})
+    if links and g.random() < 0.3:
+        # a message of the force field attached to a link (logged when the link applies): info, warning or error level
+        l = g.choice([x for x in links if not x.get("removal_link")] or links)
+        level = g.choice(["info", "warning", "error", "error"])
+        l["sections"][level] = [{"atoms": ["this link is part of a generated test force field"], "params": [], "meta": {}}]
     multires = None
     if g.random() < multires_p:
         # an existing multi-residue molecule used as building block (polyply .itp file; residue graph nodes of the
